@@ -10,9 +10,12 @@ Definition bop_text (o : bop) : string := match o with BAnd => "AND" | BOr => "O
 
 (* A criterion: Empty, an opaque non-complex criterion (its rendering is its text), a
    ComplexCriterion, or Not.  *)
+(* An atom carries its text without and with namespace (table-qualified fields) and whether it mentions a table
+   that is not part of the statement (then QueryBuilder.where sets _foreign_table, which turns with_namespace on). *)
 Inductive crit :=
 | Empty
 | Atom (txt : string)
+| AtomT (plain ns : string) (foreign : bool)
 | Cplx (op : bop) (l r : crit)
 | Not (c : crit).
 
@@ -49,11 +52,23 @@ Definition add_filter (slot : option crit) (c : crit) : option crit :=
 Definition needs_brackets (op : bop) (t : crit) : bool :=
   match t with Cplx op' _ _ => negb (bop_eqb op' op) | _ => false end.
 
+(* does the criterion mention a foreign table?  (_validate_table over criterion.fields_()) *)
+Fixpoint has_foreign (c : crit) : bool :=
+  match c with
+  | AtomT _ _ f => f
+  | Cplx _ l r => has_foreign l || has_foreign r
+  | Not t => has_foreign t
+  | _ => false
+  end.
+
+Section Render.
+Variable wns : bool.    (* with_namespace of the statement *)
 (* None = the TypeError raised by EmptyCriterion.get_sql when called with keyword arguments *)
 Fixpoint rc (sub : bool) (c : crit) : option string :=
   match c with
   | Empty => None
   | Atom s => Some s
+  | AtomT p n _ => Some (if wns then n else p)
   | Cplx op l r =>
       match rc (needs_brackets op l) l, rc (needs_brackets op r) r with
       | Some a, Some b =>
@@ -64,11 +79,21 @@ Fixpoint rc (sub : bool) (c : crit) : option string :=
   | Not t => match rc true t with Some a => Some ("NOT " ++ a) | None => None end
   end.
 
-(* the statement  SELECT * FROM "t" [WHERE w] [HAVING h]  as QueryBuilder.get_sql assembles it *)
-Definition render_stmt (w h : option crit) : option string :=
+(* the statement  <head> [WHERE w] [HAVING h]  as QueryBuilder.get_sql assembles it; <head> is SELECT * FROM "t"
+   in the quoting of the query class *)
+Definition render_stmt_h (head : string) (w h : option crit) : option string :=
   let part (kw : string) (o : option crit) : option string :=
       match o with None => Some "" | Some c => option_map (fun s => kw ++ s) (rc false c) end in
   match part " WHERE " w, part " HAVING " h with
-  | Some a, Some b => Some ("SELECT * FROM ""t""" ++ a ++ b)
+  | Some a, Some b => Some (head ++ a ++ b)
   | _, _ => None
+  end.
+Definition render_stmt := render_stmt_h "SELECT * FROM ""t""".
+End Render.
+
+(* QueryBuilder.where: besides accumulating, a criterion with a foreign table sets the sticky flag *)
+Definition add_where (st : option crit * bool) (c : crit) : option crit * bool :=
+  match c with
+  | Empty => st
+  | _ => (add_filter (fst st) c, snd st || has_foreign c)
   end.
